@@ -1,1 +1,577 @@
+(* C18 — lemmas about the Via model.  Facts about the source (Tables.v) enter
+   only as hypotheses; C18.v discharges them with the obligations of Ob18.v. *)
+From Coq Require Import Lia.
+From G01 Require Import Via ViaCheck.
 
+(* ---------- substrings ---------- *)
+Definition infix (p s : str) : Prop := exists a c, s = a ++ p ++ c.
+
+Lemma contains_spec s p : contains s p = true <-> infix p s.
+Proof.
+  induction s as [|d s IH].
+  - cbn [contains]. rewrite orb_false_r, has_prefix_spec. split.
+    + intros [r Hr]. exists [], r. exact Hr.
+    + intros [a [c H]]. destruct a; [|discriminate]. exists c. exact H.
+  - cbn [contains]. rewrite orb_true_iff, has_prefix_spec, IH. split.
+    + intros [[r Hr] | [a [c H]]].
+      * exists [], r. exact Hr.
+      * exists (d :: a), c. simpl. f_equal. exact H.
+    + intros [a [c H]]. destruct a as [|x a].
+      * left. exists c. exact H.
+      * right. simpl in H. injection H as _ H. exists a, c. exact H.
+Qed.
+
+Lemma infix_refl s : infix s s.
+Proof. exists [], []. rewrite app_nil_r. reflexivity. Qed.
+
+Lemma infix_trans p q s : infix p q -> infix q s -> infix p s.
+Proof.
+  intros [a [c ->]] [a' [c' ->]]. exists (a' ++ a), (c ++ c').
+  repeat rewrite <- app_assoc. reflexivity.
+Qed.
+
+Lemma infix_app_l p x y : infix p x -> infix p (x ++ y).
+Proof. intros [a [c ->]]. exists a, (c ++ y). repeat rewrite <- app_assoc. reflexivity. Qed.
+
+Lemma infix_app_r p x y : infix p y -> infix p (x ++ y).
+Proof. intros [a [c ->]]. exists (x ++ a), c. repeat rewrite <- app_assoc. reflexivity. Qed.
+
+Lemma infix_cons p c y : infix p y -> infix p (c :: y).
+Proof. intros [a [d ->]]. exists (c :: a), d. reflexivity. Qed.
+
+Ltac tag_at_end := repeat (first [apply infix_refl | apply infix_cons | apply infix_app_r]).
+
+Lemma infix_nil p : infix p [] -> p = [].
+Proof.
+  intros [a [c H]]. symmetry in H. apply app_eq_nil in H as [_ H]. apply app_eq_nil in H as [H _]. exact H.
+Qed.
+
+(* a string free of byte c that occurs in x ++ c :: y occurs in x or in y *)
+Lemma infix_sep_split (c : N) p x y : ~ In c p -> infix p (x ++ c :: y) -> infix p x \/ infix p y.
+Proof.
+  intros Hn [a [d H]]. apply app_eq_app in H as [l [[H1 H2] | [H1 H2]]].
+  - (* x = a ++ l, p ++ d = l ++ c :: y *)
+    symmetry in H2. apply app_eq_app in H2 as [l2 [[H3 H4] | [H3 H4]]].
+    + (* l = p ++ l2 *) left. subst. exists a, l2. reflexivity.
+    + (* p = l ++ l2, c :: y = l2 ++ d *)
+      destruct l2 as [|e l2].
+      * left. subst. rewrite app_nil_r. exists a, []. rewrite app_nil_r. reflexivity.
+      * simpl in H4. injection H4 as -> H4. exfalso. apply Hn. rewrite H3. apply in_or_app. right. left. reflexivity.
+  - (* a = x ++ l, c :: y = l ++ p ++ d *)
+    destruct l as [|e l].
+    + simpl in H2. destruct p as [|e p].
+      * left. exists x, []. rewrite app_nil_r. reflexivity.
+      * simpl in H2. injection H2 as -> _. exfalso. apply Hn. left. reflexivity.
+    + simpl in H2. injection H2 as _ H2. right. exists l, d. exact H2.
+Qed.
+
+(* ---------- join ---------- *)
+Lemma join_cons2 sep x y r : join sep (x :: y :: r) = x ++ sep ++ join sep (y :: r).
+Proof. reflexivity. Qed.
+
+Lemma in_join_infix sep l lines : In l lines -> infix l (join sep lines).
+Proof.
+  induction lines as [|x r IH]; [intros []|].
+  intros [->|Hin].
+  - destruct r as [|y r]; [apply infix_refl|]. rewrite join_cons2. apply infix_app_l. apply infix_refl.
+  - destruct r as [|y r]; [destruct Hin|]. rewrite join_cons2. apply infix_app_r. apply infix_app_r. apply IH. exact Hin.
+Qed.
+
+Lemma join_infix_some tag lines :
+  ~ In 44 tag -> ~ In 32 tag -> tag <> [] ->
+  infix tag (join comma_sp lines) -> exists l, In l lines /\ infix tag l.
+Proof.
+  intros H44 H32 Hne. induction lines as [|x r IH]; intro H.
+  - apply infix_nil in H. contradiction.
+  - destruct r as [|y r].
+    + exists x. split; [left; reflexivity | exact H].
+    + rewrite join_cons2 in H. unfold comma_sp in H. cbn [app] in H.
+      destruct (infix_sep_split 44 tag _ _ H44 H) as [H1|H1].
+      * exists x. split; [left; reflexivity | exact H1].
+      * change (32 :: join [44; 32] (y :: r)) with ([] ++ 32 :: join [44; 32] (y :: r)) in H1.
+        destruct (infix_sep_split 32 tag _ _ H32 H1) as [H2|H2].
+        -- apply infix_nil in H2. contradiction.
+        -- destruct (IH H2) as [l [Hin Hl]]. exists l. split; [right; exact Hin | exact Hl].
+Qed.
+
+(* ---------- what tag_ok gives ---------- *)
+Lemma tag_ok_facts tag : tag_ok tag = true ->
+  tag <> [] /\ ~ In 44 tag /\ ~ In 32 tag /\ (forall c, In c tag -> is_ows c = false).
+Proof.
+  unfold tag_ok. intro H. apply andb_true_iff in H as [H1 H2].
+  rewrite forallb_forall in H2.
+  assert (Hc : forall c, In c tag -> c <> 44 /\ is_ows c = false).
+  { intros c Hin. specialize (H2 c Hin). apply andb_true_iff in H2 as [A B].
+    apply negb_true_iff in A, B. apply N.eqb_neq in A. split; assumption. }
+  repeat split.
+  - destruct tag; [discriminate | discriminate].
+  - intro Hin. apply Hc in Hin as [A _]. apply A. reflexivity.
+  - intro Hin. apply Hc in Hin as [_ B]. discriminate B.
+  - intros c Hin. apply Hc in Hin as [_ B]. exact B.
+Qed.
+
+(* ---------- own_sub / own_elem ---------- *)
+Lemma own_sub_spec tag lines : own_sub tag lines = true <-> exists l, In l lines /\ infix tag l.
+Proof.
+  unfold own_sub. rewrite existsb_exists. split; intros [l [Hin H]]; exists l; split; try exact Hin.
+  - apply contains_spec. exact H.
+  - apply contains_spec. exact H.
+Qed.
+
+Lemma split_byte_nonempty c s : split_byte c s <> [].
+Proof.
+  destruct s as [|d s]; cbn [split_byte]; [discriminate|].
+  destruct (c =? d); [discriminate|]. destruct (split_byte c s); discriminate.
+Qed.
+
+Lemma split_byte_app c x y : split_byte c (x ++ c :: y) = split_byte c x ++ split_byte c y.
+Proof.
+  induction x as [|d x IH].
+  - cbn [app split_byte]. rewrite N.eqb_refl. reflexivity.
+  - cbn [app split_byte]. destruct (c =? d).
+    + rewrite IH. reflexivity.
+    + rewrite IH. destruct (split_byte c x) as [|u us] eqn:E.
+      * exfalso. exact (split_byte_nonempty c x E).
+      * reflexivity.
+Qed.
+
+Lemma split_byte_none c s : ~ In c s -> split_byte c s = [s].
+Proof.
+  induction s as [|d s IH]; intro Hn; [reflexivity|].
+  cbn [split_byte]. destruct (c =? d) eqn:E.
+  - apply N.eqb_eq in E. subst. exfalso. apply Hn. left. reflexivity.
+  - rewrite IH; [reflexivity|]. intro Hin. apply Hn. right. exact Hin.
+Qed.
+
+Lemma split_first_prefix c t v vs : split_byte c t = v :: vs -> exists r, t = v ++ r.
+Proof.
+  revert v vs. induction t as [|k t IHt]; intros v vs Hs.
+  - cbn in Hs. injection Hs as <- _. exists []. reflexivity.
+  - cbn [split_byte] in Hs. destruct (c =? k).
+    + injection Hs as <- _. exists (k :: t). reflexivity.
+    + destruct (split_byte c t) as [|w ws] eqn:E2.
+      * injection Hs as <- _. exists t. reflexivity.
+      * injection Hs as <- _. destruct (IHt w ws eq_refl) as [r ->]. exists r. reflexivity.
+Qed.
+
+Lemma split_piece_infix c s x : In x (split_byte c s) -> infix x s.
+Proof.
+  revert x. induction s as [|d s IH]; intros x Hin.
+  - cbn in Hin. destruct Hin as [<-|[]]. apply infix_refl.
+  - cbn [split_byte] in Hin. destruct (c =? d).
+    + destruct Hin as [<-|Hin].
+      * exists [], (d :: s). reflexivity.
+      * change (d :: s) with ([d] ++ s). apply infix_app_r. apply IH. exact Hin.
+    + destruct (split_byte c s) as [|u us] eqn:E.
+      * destruct Hin as [<-|[]]. exists [], s. reflexivity.
+      * destruct Hin as [<-|Hin].
+        -- destruct (split_first_prefix c s u us E) as [r ->]. exists [], r. reflexivity.
+        -- change (d :: s) with ([d] ++ s). apply infix_app_r. apply IH. right. exact Hin.
+Qed.
+
+(* trimming keeps a substring of the original *)
+Lemma drop_ows_suffix s : exists a, s = a ++ drop_ows s.
+Proof.
+  induction s as [|c s [a IH]]; [exists []; reflexivity|].
+  cbn [drop_ows]. destruct (is_ows c).
+  - exists (c :: a). simpl. f_equal. exact IH.
+  - exists []. reflexivity.
+Qed.
+
+Lemma trim_ows_infix s : infix (trim_ows s) s.
+Proof.
+  unfold trim_ows. destruct (drop_ows_suffix s) as [a Ha].
+  destruct (drop_ows_suffix (rev (drop_ows s))) as [c Hc].
+  exists a, (rev c). rewrite Ha at 1. f_equal.
+  rewrite <- (rev_involutive (drop_ows s)) at 1. rewrite Hc at 1. rewrite rev_app_distr. reflexivity.
+Qed.
+
+(* every field of a string is a substring *)
+Lemma fields_go_infix cur s f : In f (fields_go cur s) -> infix f (rev cur ++ s).
+Proof.
+  revert cur. induction s as [|c s IH]; intros cur Hin.
+  - cbn in Hin. destruct cur; [destruct Hin|]. destruct Hin as [<-|[]]. rewrite app_nil_r. apply infix_refl.
+  - cbn [fields_go] in Hin. destruct (is_ows c).
+    + destruct cur as [|k cur].
+      * apply IH in Hin. cbn in Hin |- *. change (c :: s) with ([c] ++ s). apply infix_app_r. exact Hin.
+      * destruct Hin as [<-|Hin].
+        -- apply infix_app_l. apply infix_refl.
+        -- apply IH in Hin. cbn in Hin. apply infix_app_r. change (c :: s) with ([c] ++ s). apply infix_app_r. exact Hin.
+    + apply IH in Hin. cbn [rev] in Hin. rewrite <- app_assoc in Hin. exact Hin.
+Qed.
+
+Lemma received_by_infix it tag : tag <> [] -> received_by it = tag -> infix tag it.
+Proof.
+  unfold received_by, fields. intros Hne H.
+  assert (Hin : In tag (fields_go [] it)).
+  { destruct (fields_go [] it) as [|f0 [|f1 fr]]; cbn in H.
+    - congruence.
+    - congruence.
+    - right. left. exact H. }
+  apply fields_go_infix in Hin. exact Hin.
+Qed.
+
+Lemma chain_in it lines : In it (chain lines) -> exists l, In l lines /\ infix it l.
+Proof.
+  unfold chain. rewrite in_flat_map. intros [l [Hl Hin]]. exists l. split; [exact Hl|].
+  unfold items_ne in Hin. apply filter_In in Hin as [Hin _]. unfold items in Hin.
+  apply in_map_iff in Hin as [piece [<- Hp]].
+  eapply infix_trans; [apply trim_ows_infix | apply (split_piece_infix 44); exact Hp].
+Qed.
+
+Lemma own_elem_sub tag lines : tag <> [] -> own_elem tag lines = true -> own_sub tag lines = true.
+Proof.
+  intros Hne H. unfold own_elem in H. apply existsb_exists in H as [it [Hin Heq]].
+  apply str_eqb_eq in Heq. apply own_sub_spec.
+  destruct (chain_in it lines Hin) as [l [Hl Hi]]. exists l. split; [exact Hl|].
+  eapply infix_trans; [apply received_by_infix; eassumption | exact Hi].
+Qed.
+
+(* ---------- list elements of joined lines ---------- *)
+Lemma items_ne_sep x y : items_ne (x ++ 44 :: y) = items_ne x ++ items_ne y.
+Proof. unfold items_ne, items. rewrite split_byte_app, map_app, filter_app. reflexivity. Qed.
+
+Lemma items_ne_sp y : items_ne (32 :: y) = items_ne y.
+Proof.
+  unfold items_ne, items. cbn [split_byte]. change (44 =? 32) with false. cbv iota.
+  destruct (split_byte 44 y) as [|u us] eqn:E.
+  - exfalso. exact (split_byte_nonempty 44 y E).
+  - cbn [map]. unfold trim_ows at 1 3. cbn [drop_ows is_ows]. change (32 =? 32) with true. cbn [orb]. reflexivity.
+Qed.
+
+Lemma items_ne_nil : items_ne [] = [].
+Proof. reflexivity. Qed.
+
+Lemma items_ne_join lines : items_ne (join comma_sp lines) = chain lines.
+Proof.
+  induction lines as [|x r IH]; [reflexivity|].
+  destruct r as [|y r].
+  - cbn [join chain flat_map]. rewrite app_nil_r. reflexivity.
+  - rewrite join_cons2. unfold comma_sp at 1. cbn [app]. rewrite items_ne_sep, items_ne_sp, IH. reflexivity.
+Qed.
+
+(* an element text without comma, not starting or ending in white space, is one list element *)
+Definition p_ok (p : str) : bool :=
+  match p with c :: _ => negb (is_ows c) && forallb (fun k => negb (k =? 44)) p | [] => false end.
+
+Lemma drop_ows_hd s : (match s with c :: _ => is_ows c = false | [] => True end) -> drop_ows s = s.
+Proof. destruct s as [|c s]; [reflexivity|]. cbn [drop_ows]. intros ->. reflexivity. Qed.
+
+Lemma elem_single p tag : p_ok p = true -> tag_ok tag = true ->
+  items_ne (p ++ 32 :: tag) = [p ++ 32 :: tag].
+Proof.
+  intros Hp Ht. destruct (tag_ok_facts tag Ht) as [Hne [H44 [_ Hows]]].
+  destruct p as [|c p]; [discriminate|]. cbn [p_ok] in Hp. apply andb_true_iff in Hp as [Hc Hp].
+  apply negb_true_iff in Hc. rewrite forallb_forall in Hp.
+  unfold items_ne, items. rewrite split_byte_none.
+  - cbn [map]. assert (E : trim_ows ((c :: p) ++ 32 :: tag) = (c :: p) ++ 32 :: tag).
+    { unfold trim_ows. rewrite (drop_ows_hd ((c :: p) ++ 32 :: tag)) by exact Hc.
+      rewrite drop_ows_hd; [apply rev_involutive|].
+      rewrite rev_app_distr. cbn [rev]. rewrite <- app_assoc.
+      destruct (rev tag) as [|k rt] eqn:E.
+      - exfalso. apply Hne. rewrite <- (rev_involutive tag), E. reflexivity.
+      - cbn [app]. apply Hows. apply in_rev. rewrite E. left. reflexivity. }
+    rewrite E. cbn [filter is_empty app negb]. reflexivity.
+  - intro Hin. apply in_app_or in Hin as [Hin|[Hin|Hin]].
+    + specialize (Hp 44 Hin). discriminate.
+    + discriminate.
+    + contradiction.
+Qed.
+
+(* ---------- the modifier ---------- *)
+Lemma canon_via : canon via_key = via_key.
+Proof. reflexivity. Qed.
+
+Lemma values_after_set v h : h_values via_key (h_set via_key v h) = [v].
+Proof. unfold h_values, h_set. rewrite canon_via, raw_get_set_same. reflexivity. Qed.
+
+Lemma others_after_set v h : others_unchanged h (h_set via_key v h) = true.
+Proof.
+  unfold others_unchanged. apply forallb_forall. intros k _.
+  destruct (str_eqb k via_key) eqn:E; [reflexivity|]. cbn [orb].
+  apply opt_vals_eqb_eq. unfold h_set. rewrite canon_via. symmetry.
+  apply raw_get_set_other. apply str_eqb_neq. exact E.
+Qed.
+
+Section Fixed.
+  (* the obligations on the source, as hypotheses *)
+  Variable st : N.
+  Variable cl : bool.
+  Hypothesis Hst : via_loop_status = st.
+  Hypothesis Hcl : via_sets_close = cl.
+  Hypothesis Hsep : via_join_sep = comma_sp.
+
+  Let modify := via_modify_gen true.
+
+  (* own tag anywhere in any received field line => refused *)
+  Lemma detects_own tag maj min h l :
+    tag <> [] -> In l (h_values via_key h) -> contains l tag = true ->
+    modify tag maj min h = ViaRefused st cl.
+  Proof.
+    intros Hne Hin Hc. unfold modify, via_modify_gen, via_read.
+    assert (Hi : infix tag (join comma_sp (h_values via_key h))).
+    { eapply infix_trans; [apply contains_spec; exact Hc | apply in_join_infix; exact Hin]. }
+    assert (E : is_empty (join comma_sp (h_values via_key h)) = false).
+    { destruct (join comma_sp (h_values via_key h)); [|reflexivity]. apply infix_nil in Hi. contradiction. }
+    rewrite E. apply contains_spec in Hi. rewrite Hi. cbn [negb andb]. rewrite Hst, Hcl. reflexivity.
+  Qed.
+
+  (* tag text nowhere in the received chain => forwarded, with this value *)
+  Lemma foreign_forwarded tag maj min h :
+    tag_ok tag = true -> own_sub tag (h_values via_key h) = false ->
+    modify tag maj min h =
+      ViaOk (h_set via_key ((if is_empty (join comma_sp (h_values via_key h)) then []
+                             else join comma_sp (h_values via_key h) ++ comma_sp)
+                            ++ proto_str maj min ++ [32] ++ tag) h).
+  Proof.
+    intros Ht Hno. destruct (tag_ok_facts tag Ht) as [Hne [H44 [H32 _]]].
+    unfold modify, via_modify_gen, via_read. rewrite Hsep.
+    destruct (contains (join comma_sp (h_values via_key h)) tag) eqn:E.
+    - exfalso. apply contains_spec in E. apply join_infix_some in E; try assumption.
+      assert (own_sub tag (h_values via_key h) = true) by (apply own_sub_spec; exact E). congruence.
+    - rewrite andb_false_r. reflexivity.
+  Qed.
+
+  (* refusal happens only when the tag text is in the received chain *)
+  Lemma refused_only_own tag maj min h s c :
+    tag_ok tag = true -> modify tag maj min h = ViaRefused s c ->
+    own_sub tag (h_values via_key h) = true /\ s = st /\ c = cl.
+  Proof.
+    intros Ht H. destruct (own_sub tag (h_values via_key h)) eqn:E.
+    - unfold modify, via_modify_gen in H.
+      destruct (negb (is_empty (via_read true h)) && contains (via_read true h) tag); [|discriminate].
+      injection H as <- <-. rewrite Hst, Hcl. repeat split.
+    - rewrite foreign_forwarded in H by assumption. discriminate.
+  Qed.
+
+  (* the forwarded chain: everything received, in order, then this instance's element *)
+  Lemma appends_after_existing tag maj min h h' :
+    tag_ok tag = true -> p_ok (proto_str maj min) = true ->
+    modify tag maj min h = ViaOk h' ->
+    exists v, h_values via_key h' = [v] /\
+              chain [v] = chain (h_values via_key h) ++ [proto_str maj min ++ [32] ++ tag] /\
+              others_unchanged h h' = true /\
+              own_elem tag (h_values via_key h) = false.
+  Proof.
+    intros Ht Hp H. destruct (tag_ok_facts tag Ht) as [Hne _].
+    destruct (own_sub tag (h_values via_key h)) eqn:E.
+    - exfalso. apply own_sub_spec in E as [l [Hin Hi]].
+      rewrite (detects_own tag maj min h l Hne Hin) in H; [discriminate | apply contains_spec; exact Hi].
+    - rewrite foreign_forwarded in H by assumption. injection H as <-.
+      eexists. split; [apply values_after_set|]. split; [|split; [apply others_after_set|]].
+      + cbn [chain flat_map]. rewrite app_nil_r.
+        destruct (join comma_sp (h_values via_key h)) as [|c0 j] eqn:EJ.
+        * cbn [is_empty app]. rewrite <- (items_ne_join (h_values via_key h)), EJ.
+          cbn [items_ne_nil]. rewrite items_ne_nil. cbn [app]. apply (elem_single _ _ Hp Ht).
+        * cbn [is_empty]. rewrite <- (items_ne_join (h_values via_key h)), EJ.
+          unfold comma_sp at 1. rewrite <- app_assoc. cbn [app].
+          change (c0 :: j ++ 44 :: 32 :: proto_str maj min ++ 32 :: tag)
+            with ((c0 :: j) ++ 44 :: (32 :: (proto_str maj min ++ 32 :: tag))).
+          rewrite items_ne_sep, items_ne_sp. f_equal. apply (elem_single _ _ Hp Ht).
+      + destruct (own_elem tag (h_values via_key h)) eqn:E2; [|reflexivity].
+        apply own_elem_sub in E2; [congruence | exact Hne].
+  Qed.
+
+  (* the element just added is found again on the next visit, whatever the version *)
+  Lemma self_loop tag maj min h h' maj' min' :
+    modify tag maj min h = ViaOk h' -> modify tag maj' min' h' = ViaRefused st cl.
+  Proof.
+    intro H. unfold modify, via_modify_gen in H.
+    destruct (negb (is_empty (via_read true h)) && contains (via_read true h) tag); [discriminate|].
+    injection H as <-.
+    match goal with |- context [h_set via_key ?V h] => set (v := V) end.
+    unfold modify, via_modify_gen, via_read. rewrite values_after_set. cbn [join].
+    assert (Hi : infix tag v).
+    { unfold v. tag_at_end. }
+    assert (E : is_empty v = false).
+    { unfold v. destruct (if is_empty _ then [] else _); destruct (proto_str maj min); reflexivity. }
+    rewrite E. apply contains_spec in Hi. rewrite Hi. cbn [negb andb]. rewrite Hst, Hcl. reflexivity.
+  Qed.
+
+  (* after forwarding, the tag text is in the chain *)
+  Lemma forwarded_has_tag tag maj min h h' :
+    modify tag maj min h = ViaOk h' -> own_sub tag (h_values via_key h') = true.
+  Proof.
+    intro H. unfold modify, via_modify_gen in H.
+    destruct (negb (is_empty (via_read true h)) && contains (via_read true h) tag); [discriminate|].
+    injection H as <-. rewrite values_after_set. apply own_sub_spec. eexists. split; [left; reflexivity|].
+    tag_at_end.
+  Qed.
+
+  (* A -> B -> A for any B that keeps A's tag text somewhere in the chain *)
+  Lemma two_proxy_loop tag maj min h h' (B : list str -> list str) h'' maj' min' :
+    tag <> [] ->
+    (forall ls, own_sub tag ls = true -> own_sub tag (B ls) = true) ->
+    modify tag maj min h = ViaOk h' ->
+    h_values via_key h'' = B (h_values via_key h') ->
+    modify tag maj' min' h'' = ViaRefused st cl.
+  Proof.
+    intros Hne HB H HB2. apply forwarded_has_tag in H. apply HB in H. rewrite <- HB2 in H.
+    apply own_sub_spec in H as [l [Hin Hi]].
+    apply (detects_own tag maj' min' h'' l Hne Hin). apply contains_spec. exact Hi.
+  Qed.
+
+  (* B = another instance of the fixed modifier (any tag, incl. same name) keeps every tag text *)
+  Lemma hop_keeps tag tag' maj min h h' :
+    modify tag' maj min h = ViaOk h' ->
+    own_sub tag (h_values via_key h) = true -> own_sub tag (h_values via_key h') = true.
+  Proof.
+    intros H Hs. unfold modify, via_modify_gen in H.
+    destruct (negb (is_empty (via_read true h)) && contains (via_read true h) tag'); [discriminate|].
+    injection H as <-. rewrite values_after_set. apply own_sub_spec in Hs as [l [Hin Hi]].
+    apply own_sub_spec. eexists. split; [left; reflexivity|].
+    assert (Hj : infix tag (via_read true h)).
+    { unfold via_read. eapply infix_trans; [exact Hi | apply in_join_infix; exact Hin]. }
+    apply infix_app_l. unfold via_read in Hj.
+    destruct (join comma_sp (h_values via_key h)) as [|c0 j] eqn:E.
+    - cbn [is_empty]. exact Hj.
+    - cbn [is_empty]. apply infix_app_l. exact Hj.
+  Qed.
+
+  (* the model always satisfies the property predicate that is evaluated on the implementation *)
+  Lemma model_satisfies_prop tag maj min h :
+    st = 400 -> cl = true ->
+    tag_ok tag = true -> p_ok (spec_proto maj min) = true -> proto_str maj min = spec_proto maj min ->
+    via_prop_ok tag maj min h (modify tag maj min h) = true.
+  Proof.
+    intros Hs4 Hc Ht Hp Hpe. destruct (modify tag maj min h) as [s c|h'] eqn:E.
+    - apply refused_only_own in E as [Ho [-> ->]]; [|exact Ht]. cbn [via_prop_ok]. rewrite Ho, Hs4, Hc. reflexivity.
+    - rewrite <- Hpe in Hp. destruct (appends_after_existing tag maj min h h' Ht Hp E) as [v [Hv [Hch [Hoth Hown]]]].
+      cbn [via_prop_ok]. rewrite Hown, Hoth, Hv, Hch. unfold elem. rewrite Hpe.
+      cbn [negb andb]. rewrite andb_true_r. apply list_str_eqb_eq. reflexivity.
+  Qed.
+End Fixed.
+
+(* merging all field lines into one, or splitting them at commas, keeps a comma-free tag text *)
+Lemma merge_keeps tag ls : own_sub tag ls = true -> own_sub tag [join comma_sp ls] = true.
+Proof.
+  intro H. apply own_sub_spec in H as [l [Hin Hi]]. apply own_sub_spec. eexists. split; [left; reflexivity|].
+  eapply infix_trans; [exact Hi | apply in_join_infix; exact Hin].
+Qed.
+
+Lemma split_has_piece tag : ~ In 44 tag -> forall n l, (length l <= n)%nat -> infix tag l ->
+  exists piece, In piece (split_byte 44 l) /\ infix tag piece.
+Proof.
+  intros H44. induction n as [|n IH]; intros l Hlen Hi.
+  - destruct l; [|simpl in Hlen; lia]. exists []. split; [left; reflexivity | exact Hi].
+  - destruct (in_dec N.eq_dec 44 l) as [Hin|Hnin].
+    + apply in_split in Hin as [x [y ->]]. rewrite split_byte_app.
+      rewrite app_length in Hlen. cbn [length] in Hlen.
+      destruct (infix_sep_split 44 tag _ _ H44 Hi) as [Hi'|Hi'].
+      * destruct (IH x ltac:(lia) Hi') as [pc [Hp Hpi]]. exists pc. split; [apply in_or_app; left; exact Hp | exact Hpi].
+      * destruct (IH y ltac:(lia) Hi') as [pc [Hp Hpi]]. exists pc. split; [apply in_or_app; right; exact Hp | exact Hpi].
+    + rewrite split_byte_none by exact Hnin. exists l. split; [left; reflexivity | exact Hi].
+Qed.
+
+Lemma split_keeps tag ls : ~ In 44 tag -> own_sub tag ls = true -> own_sub tag (flat_map (split_byte 44) ls) = true.
+Proof.
+  intros H44 H. apply own_sub_spec in H as [l [Hin Hi]]. apply own_sub_spec.
+  destruct (split_has_piece tag H44 (length l) l (le_n _) Hi) as [pc [Hp Hpi]].
+  exists pc. split; [apply in_flat_map; exists l; split; assumption | exact Hpi].
+Qed.
+
+(* ---------- status mapping ---------- *)
+Lemma first_nonzero_status (handlers : list str) s :
+  s <> 0 -> In (b "handleMartianErrorStatus") handlers ->
+  first_nonzero (map (fun n => handler_code_on_status_error n s) handlers) = s.
+Proof.
+  intros Hs. induction handlers as [|x r IH]; [intros []|].
+  intro Hin. cbn [map first_nonzero].
+  destruct (str_eqb x (b "handleMartianErrorStatus")) eqn:E.
+  - assert (Hx : handler_code_on_status_error x s = s) by (unfold handler_code_on_status_error; rewrite E; reflexivity).
+    rewrite Hx. apply N.eqb_neq in Hs. rewrite Hs. reflexivity.
+  - assert (Hx : handler_code_on_status_error x s = 0) by (unfold handler_code_on_status_error; rewrite E; reflexivity).
+    rewrite Hx. cbn. apply IH. destruct Hin as [->|Hin]; [|exact Hin].
+    rewrite str_eqb_refl in E. discriminate.
+Qed.
+
+(* ---------- protocol text for the versions net/http can parse ---------- *)
+Definition digits10 : list N := [0;1;2;3;4;5;6;7;8;9].
+Definition proto_table_ok : bool :=
+  forallb (fun maj => forallb (fun min =>
+     str_eqb (proto_str maj min) (spec_proto maj min) && p_ok (spec_proto maj min)) digits10) digits10.
+
+Lemma lt10_in n : n < 10 -> In n digits10.
+Proof.
+  intro H. assert (n = 0 \/ n = 1 \/ n = 2 \/ n = 3 \/ n = 4 \/ n = 5 \/ n = 6 \/ n = 7 \/ n = 8 \/ n = 9) by lia.
+  unfold digits10. cbn [In]. intuition.
+Qed.
+
+Lemma proto_table maj min : proto_table_ok = true -> maj < 10 -> min < 10 ->
+  proto_str maj min = spec_proto maj min /\ p_ok (spec_proto maj min) = true.
+Proof.
+  unfold proto_table_ok. intros H Hm Hn. rewrite forallb_forall in H.
+  specialize (H maj (lt10_in maj Hm)). rewrite forallb_forall in H. specialize (H min (lt10_in min Hn)).
+  apply andb_true_iff in H as [H1 H2]. apply str_eqb_eq in H1. split; assumption.
+Qed.
+
+(* ---------- soundness of the run-time oracle ---------- *)
+(* via_prop_ok = true means exactly: *)
+Definition ViaSpec (tag : str) (maj min : N) (h : hmap) (r : via_result) : Prop :=
+  match r with
+  | ViaRefused s c => (exists l, In l (h_values via_key h) /\ infix tag l) /\ s = 400 /\ c = true
+  | ViaOk h' => own_elem tag (h_values via_key h) = false /\
+                chain (h_values via_key h') = chain (h_values via_key h) ++ [elem tag maj min] /\
+                (forall k, k <> via_key -> raw_get k h' = raw_get k h)
+  end.
+
+Lemma via_prop_ok_sound tag maj min h r : via_prop_ok tag maj min h r = true -> ViaSpec tag maj min h r.
+Proof.
+  destruct r as [s c|h']; cbn [via_prop_ok ViaSpec]; intro H.
+  - apply andb_true_iff in H as [H Hc]. apply andb_true_iff in H as [Ho Hs].
+    apply own_sub_spec in Ho. apply N.eqb_eq in Hs. split; [exact Ho|]. split; [exact Hs | exact Hc].
+  - apply andb_true_iff in H as [H Hoth]. apply andb_true_iff in H as [Ho Hch].
+    apply negb_true_iff in Ho. apply list_str_eqb_eq in Hch. split; [exact Ho|]. split; [exact Hch|].
+    intros k Hk. unfold others_unchanged in Hoth. rewrite forallb_forall in Hoth.
+    destruct (in_dec (list_eq_dec N.eq_dec) k (keys h ++ keys h')) as [Hin|Hnin].
+    + specialize (Hoth k Hin). apply orb_true_iff in Hoth as [E|E].
+      * apply str_eqb_eq in E. contradiction.
+      * apply opt_vals_eqb_eq in E. symmetry. exact E.
+    + assert (~ In k (keys h) /\ ~ In k (keys h')) as [A C].
+      { split; intro; apply Hnin; apply in_or_app; tauto. }
+      apply raw_get_none_notin in A, C. congruence.
+Qed.
+
+(* ---------- same name, different instance ---------- *)
+(* The element "<proto> <name>-<hex'>" of another instance configured with the same
+   name never contains this instance's tag "<name>-<hex>" (hex <> hex'): the tag
+   could only sit at the end (then hex = hex') or further left, and then the
+   separator '-' of the element would have to be one of the hex digits. *)
+Definition is_hexdigit (c : N) : bool := is_digit c || ((97 <=? c) && (c <=? 102)).
+Definition hex20 (s : str) : bool := Nat.eqb (length s) 20 && forallb is_hexdigit s.
+
+Lemma app_same_length_inv {A} (x x' y y' : list A) :
+  length x = length x' -> x ++ y = x' ++ y' -> x = x' /\ y = y'.
+Proof.
+  revert x'. induction x as [|a x IH]; intros [|a' x'] Hl H; try discriminate.
+  - split; [reflexivity | exact H].
+  - simpl in Hl, H. injection H as -> H. injection Hl as Hl. destruct (IH x' Hl H) as [-> ->]. split; reflexivity.
+Qed.
+
+Lemma same_name_other_instance name h1 h2 p :
+  hex20 h1 = true -> hex20 h2 = true -> h1 <> h2 -> (length p < 20)%nat ->
+  contains (p ++ [32] ++ name ++ [45] ++ h2) (name ++ [45] ++ h1) = false.
+Proof.
+  intros H1 H2 Hne Hp. destruct (contains _ _) eqn:E; [|reflexivity]. exfalso.
+  apply contains_spec in E as [a [c E]].
+  apply andb_true_iff in H1 as [L1 X1]. apply andb_true_iff in H2 as [L2 X2].
+  apply Nat.eqb_eq in L1, L2.
+  assert (Hlen : (length a + length c = length p + 1)%nat).
+  { apply (f_equal (@length N)) in E. repeat (rewrite app_length in E; cbn [length] in E). lia. }
+  apply (f_equal (@rev N)) in E.
+  repeat (rewrite rev_app_distr in E; cbn [rev] in E). repeat rewrite <- app_assoc in E. cbn [app] in E.
+  (* E : rev h2 ++ 45 :: rev name ++ 32 :: rev p = rev c ++ rev h1 ++ 45 :: rev name ++ rev a *)
+  destruct c as [|c0 c].
+  - cbn [rev app] in E. apply app_same_length_inv in E as [E _]; [|rewrite !rev_length; lia].
+    apply Hne. rewrite <- (rev_involutive h1), <- (rev_involutive h2), E. reflexivity.
+  - assert (Hk : (1 <= length (c0 :: c) <= 20)%nat) by (cbn [length] in *; lia).
+    set (k := length (c0 :: c)) in *.
+    assert (N1 : nth 20 (rev h2 ++ 45 :: rev name ++ 32 :: rev p) 0 = 45).
+    { rewrite app_nth2; rewrite rev_length; [|lia]. rewrite L2. reflexivity. }
+    rewrite E in N1.
+    rewrite (app_nth2 (rev (c0 :: c))) in N1 by (rewrite rev_length; fold k; lia).
+    rewrite rev_length in N1. fold k in N1.
+    rewrite app_nth1 in N1 by (rewrite rev_length; lia).
+    assert (Hin : In (nth (20 - k) (rev h1) 0) (rev h1)) by (apply nth_In; rewrite rev_length; lia).
+    rewrite N1 in Hin. apply in_rev in Hin. rewrite forallb_forall in X1. specialize (X1 45 Hin). discriminate X1.
+Qed.
